@@ -71,6 +71,18 @@ def strategy(draw):
                 descending=draw(gen.chance(5)))
 
 
+BIG = {"quick": 24, "thorough": 240}
+
+
+@st.composite
+def strategy_big(draw):
+    """Finely sampled curves: 2^9 .. 2^15 frequencies (e.g. an unsmoothed FFT grid)."""
+    case = draw(strategy())
+    case["npts"] = draw(gen.big_size(2 ** 9, 2 ** 15))
+    case["big"] = True
+    return case
+
+
 def build(case):
     f = np.unique(np.concatenate([np.geomspace(0.05, 40.0, case["npts"]), [case["f0t"]]]))
     mc = np.ones_like(f)
@@ -223,7 +235,7 @@ def check_case(case):
     rng = tuple(case["range"])
     lw, nw, fstd = case["lw"], case["nw"], case["fstd"]
     ref = reference(f, mc, sd, lw, nw, fstd, rng)
-    labels = []
+    labels = ["big-2^%d-frequencies" % int(np.log2(case["npts"]))] if case.get("big") else []
     if case.get("descending"):
         f_up, mc_up, sd_up = f, mc, sd
         f, mc, sd = f[::-1].copy(), mc[::-1].copy(), sd[::-1].copy()       # as handed to the library; the reference used the ascending view
